@@ -30,7 +30,7 @@ def run(ctx):
                 if layout == "flat" and fam == "PCACD":
                     continue          # PCACD needs at least two features
                 ts.append(D.detector_pair(fam, p, items, layout, rng.randrange(10 ** 6)))
-    ctx.validate("Product", ts, "detectors: private copies vs caller overwrites everything it passed (5 layouts)", sabotage=P.sabotage,
+    ctx.validate("Product", ts, "detectors: private copies vs caller overwrites everything it passed (9 layouts)", sabotage=P.sabotage,
                  replay=lambda i: {"mode": "det", "fam": ts[i]["fam"], "params": ts[i]["params"], "items": ts[i]["items"], "layout": ts[i]["layout"], "seed": ts[i]["seed"]},
                  nontrivial=lambda t: any(e["a"]["state"] == "drift" for e in t["ev"]))
     ti = []
